@@ -37,7 +37,11 @@ def main():
                     recs = [{'prop': '*', 'ok': None, 'what': 'oracle failed to run: ' + repr(e)[:200]}]
             if job.get('props'):
                 recs = [r for r in recs if r['prop'] in job['props'] or r['prop'] == '*']
-            out['cases'].append({'line': ln, 'real': real, 'recs': recs, 'spec': spec})
+                spec = [x for x in spec if x.get('prop') is None or x['prop'] in job['props']]
+            case = {'line': ln, 'real': real, 'recs': recs, 'spec': spec}
+            if comp.get('model_line'):          # the model is driven by what the back end returned on the real run
+                case['model_line'] = realenv.guarded(comp['model_line'], limit, ln)
+            out['cases'].append(case)
     except BaseException as e:
         out['error'] = ''.join(traceback.format_exception_only(type(e), e)).strip()[-400:] + ' @ ' + \
             (traceback.format_tb(e.__traceback__)[-1].strip().replace('\n', ' ')[:300] if e.__traceback__ else '')
